@@ -267,7 +267,7 @@ def shards(tier):
             if tier != 'quick':
                 for o2 in range(3):
                     for c0 in (False, True):
-                        out.append(dict(name=f'items3/o0={o0},o1={o1},o2={o2},c0={c0}', harness='items3', fixed=dict(npos=np_, o0=o0, o1=o1, o2=o2, c0=c0), budget_s=b))
+                        out.append(dict(name=f'items3/o0={o0},o1={o1},o2={o2},c0={c0}', harness='items3', fixed=dict(npos=5, o0=o0, o1=o1, o2=o2, c0=c0), budget_s=b))
     if tier == 'quick':
         out.append(dict(name='items3/all-ok,futures', harness='items3', fixed=dict(npos=4, o0=0, o1=0, o2=0, c0=False, c1=False, c2=False), budget_s=b))
         out.append(dict(name='items3/one-fails', harness='items3', fixed=dict(npos=4, o0=0, o1=1, o2=0, c0=False, c1=True, c2=False), budget_s=b))
@@ -278,7 +278,7 @@ BOUNDS = {
     'quick': dict(items='1 or 2 awaited items in every mix of plain future / child process and value / failing / killed; 3 items in two fixed mixes',
                   completion=f'each item completes at its own symbolic position 0..5 (thorough: 0..{NPOS}) (hence every order and placement between loop callbacks)',
                   registration='first item by return value or by to_context() (symbolic), the others by to_context()', second_barrier='optional re-assignment of the first key by a later step', pause='two plain futures (value/fails each) with one pause request at a symbolic position, played again at idle'),
-    'thorough': dict(items='1..3 items, every mix', completion='as quick', registration='as quick', second_barrier='for 1 and 2 items'),
+    'thorough': dict(items='1..3 items, every mix', completion='positions 0..10 for 1-2 items, 0..5 for 3 items', registration='as quick', second_barrier='for 1 and 2 items'),
 }
 OUTSIDE = ['plain futures that are cancelled (only child processes are killed)', 'more than 3 awaited items', 'pause/play racing with the completions (C06)', 'awaitables that are coroutines or other awaitable kinds']
 RULE = 'paths over (item kinds, outcomes, completion positions, registration way, values); non-trivial when all items completed and the barrier oracle was evaluated'
